@@ -1389,7 +1389,13 @@ impl BookedVersions {
                     // then we must have it as a fully applied or cleared version
                     None => true,
                 })
-                .unwrap_or(true)
+                // asking about the whole version: a partially received version is not
+                // contained until all of its sequences have been received
+                .unwrap_or_else(|| {
+                    self.partials
+                        .get(&version)
+                        .is_none_or(|partial| partial.is_complete())
+                })
     }
 
     pub fn contains_all(
@@ -1444,6 +1450,19 @@ impl BookedVersions {
 
     pub fn needed(&self) -> &RangeInclusiveSet<CrsqlDbVersion> {
         &self.needed
+    }
+
+    /// forget the partial records of versions that are now fully known
+    /// (applied from a complete changeset or recorded as cleared)
+    pub fn remove_partials(&mut self, versions: &RangeInclusive<CrsqlDbVersion>) {
+        let stale: Vec<CrsqlDbVersion> = self
+            .partials
+            .range(versions.clone())
+            .map(|(version, _)| *version)
+            .collect();
+        for version in stale {
+            self.partials.remove(&version);
+        }
     }
 }
 
